@@ -1,7 +1,7 @@
 from props import rc, TRUST
 
 PROP = dict(
-    rule='rapidcheck over strings on tiny alphabets ({a,b,:} etc.), URLs / paths / argument vectors assembled from '
+    rule='rapidcheck over strings on tiny alphabets ({a,b,:} etc., one with bytes >= 0x80 that have 7-bit twins among the delimiters), tokens of 1..70000 characters, URLs / paths / argument vectors assembled from '
          'generated parts, magnitudes mantissa x 10^e (e in [-15,21)) plus exact powers of ten and their float/double '
          'neighbours; oracles are independent decompositions written on std::string; non-trivial = a delimiter next '
          'to a 1-character token, a dot in a non-last path component / hidden file / trailing separator, a duplicate '
